@@ -1,3 +1,4 @@
+mod content;
 mod dump;
 mod manifest;
 mod mkcont;
@@ -28,6 +29,7 @@ fn main() {
         let r = std::panic::catch_unwind(std::panic::AssertUnwindSafe(|| match c.family.as_str() {
             "views" => views::run(c, &tmp),
             "manifest" => manifest::run(c, &tmp),
+            "content" => content::run(c, &tmp),
             f => panic!("unknown family {f}"),
         }));
         match r {
